@@ -71,14 +71,14 @@ def compare(spec, text, ref_sql):
     return None
 
 
-def judge_spec(spec, order):
+def judge_spec(spec, order, rotate=False):
     """render with pypika (calls in the given order) and compare -> dict"""
     text, trace = bd.render(spec, order)
     out = {"text": text if not text.startswith("!") else text.split(":")[0], "trace": trace[-1] if trace else []}
     if text.startswith("!"):
         out["detail"] = text
     try:
-        ref = sr.reference_sql(spec)
+        ref = sr.reference_sql(spec, rotate=rotate)
     except sr.NotJudged as e:
         out.update(verdict="not-judged", why=str(e))
         return out
@@ -102,8 +102,8 @@ def judge_spec(spec, order):
     return out
 
 
-def passes(spec, order):
-    j = judge_spec(spec, order)
+def passes(spec, order, rotate=False):
+    j = judge_spec(spec, order, rotate)
     return j["verdict"] == "same"
 
 
@@ -208,18 +208,39 @@ def classify(spec, order, j):
     """signature of a judged difference"""
     what = j.get("what", "rows-differ")
     stmts = statements(spec)
+    # The known shapes, each with the repair that removes exactly that shape; repairs accumulate, the signature is the one
+    # of the repair after which pypika's text behaves like the reference.
+    base, rotate = spec, False
     # F1: GROUP BY alias captured by a column of a source
     if any(captured_group_aliases(q) for q in stmts):
         def repair(q):
             for n in captured_group_aliases(q):
                 q["groupby"][n] = ["t", strip_alias_term(q["groupby"][n][1])]
-        if passes(_mutate_all(spec, repair), order):
+        base = _mutate_all(base, repair)
+        if passes(base, order, rotate):
             return ["C04", "groupby", "alias-of-select-item", "captured-by-source-column"]
+    # F5: ORDER BY column rendered as a bare name that a select alias of another meaning captures
+    if any(sp.captured_order_items(q) for q in statements(base)):
+        def repair5(q):
+            hits = sp.captured_order_items(q)
+            if hits:
+                q["orderby"] = [o for n, o in enumerate(q["orderby"]) if n not in hits]
+                q.pop("limit", None); q.pop("offset", None)
+                if not q["orderby"]:
+                    q.pop("orderby")
+        base = _mutate_all(base, repair5)
+        if passes(base, order, rotate):
+            return ["C04", "orderby", "unqualified-column", "captured-by-select-alias"]
+    # F4: x*(y/z) rendered x*y/z (integer division): compare against the re-associated reference
+    if has_mul_over_div(spec):
+        rotate = True
+        if passes(base, order, rotate):
+            return ["C04", "expression", "mul-over-div", "reassociated"]
     # F2 / F3: sub-query rendered without parentheses by a clause that does not pass subquery=True
     for clause, getter in (("having", lambda q: [q["having"]] if q.get("having") is not None else []),
                            ("orderby", lambda q: [o[0] for o in q.get("orderby", [])]),
                            ("groupby", lambda q: list(q.get("groupby", [])))):
-        if what == "engine-error" and any(has_bare_subquery(i) for q in stmts for i in getter(q)):
+        if any(has_bare_subquery(i) for q in statements(base) for i in getter(q)):
             def drop(q, clause=clause, getter=getter):
                 if clause == "having":
                     if q.get("having") is not None and has_bare_subquery(q["having"]):
@@ -230,15 +251,9 @@ def classify(spec, order, j):
                         q.pop("orderby"); q.pop("limit", None); q.pop("offset", None)
                 else:
                     q["groupby"] = [g for g in q.get("groupby", []) if not has_bare_subquery(g)]
-            if passes(_mutate_all(spec, drop), order):
+            base = _mutate_all(base, drop)
+            if passes(base, order, rotate):
                 return ["C04", clause, "subquery-operand", "no-parentheses"]
-    # F4: x*(y/z) rendered x*y/z (integer division)
-    if what in ("rows-differ", "order-differs") and has_mul_over_div(spec) and not j["text"].startswith("!"):
-        try:
-            if compare(spec, j["text"], sr.reference_sql(spec, rotate=True)) is None:
-                return ["C04", "expression", "mul-over-div", "reassociated"]
-        except sr.NotJudged:
-            pass
     # anything else: attribute to a clause by removal
     for clause, fn in (("limit", lambda q: (q.pop("limit", None), q.pop("offset", None))),
                        ("orderby", lambda q: (q.pop("orderby", None), q.pop("limit", None), q.pop("offset", None))),
